@@ -72,7 +72,7 @@ fn val(len: usize, seed: u64) -> Vec<u8> {
 
 /// a backend over shared bytes, implemented for both crate versions
 #[derive(Debug, Clone)]
-struct Shared(Arc<Mutex<Vec<u8>>>);
+struct Shared(Arc<Mutex<Vec<u8>>>, Option<Arc<Mutex<Vec<crate::backend::Ev>>>>);
 
 macro_rules! impl_backend {
     ($krate:ident) => {
@@ -91,9 +91,15 @@ macro_rules! impl_backend {
             }
             fn set_len(&self, len: u64) -> Result<(), std::io::Error> {
                 self.0.lock().unwrap().resize(len as usize, 0);
+                if let Some(l) = &self.1 {
+                    l.lock().unwrap().push(crate::backend::Ev::SetLen(len));
+                }
                 Ok(())
             }
             fn sync_data(&self) -> Result<(), std::io::Error> {
+                if let Some(l) = &self.1 {
+                    l.lock().unwrap().push(crate::backend::Ev::Sync);
+                }
                 Ok(())
             }
             fn write(&self, offset: u64, data: &[u8]) -> Result<(), std::io::Error> {
@@ -103,6 +109,9 @@ macro_rules! impl_backend {
                     return Err(std::io::Error::new(std::io::ErrorKind::InvalidInput, "write out of range"));
                 }
                 d[offset as usize..end].copy_from_slice(data);
+                if let Some(l) = &self.1 {
+                    l.lock().unwrap().push(crate::backend::Ev::Write { off: offset, data: data.to_vec() });
+                }
                 Ok(())
             }
         }
@@ -121,7 +130,12 @@ macro_rules! version {
             const MM: MultimapTableDefinition<u64, u64> = MultimapTableDefinition::new("mm");
 
             pub fn open(bytes: &Arc<Mutex<Vec<u8>>>) -> Result<$krate::Database, String> {
-                $krate::Builder::new().create_with_backend(Shared(bytes.clone())).map_err(|e| format!("{e:?}"))
+                $krate::Builder::new().create_with_backend(Shared(bytes.clone(), None)).map_err(|e| format!("{e:?}"))
+            }
+
+            /// as `open`, recording every write / set_len / sync_data into `log`
+            pub fn open_recorded(bytes: &Arc<Mutex<Vec<u8>>>, log: &Arc<Mutex<Vec<crate::backend::Ev>>>) -> Result<$krate::Database, String> {
+                $krate::Builder::new().create_with_backend(Shared(bytes.clone(), Some(log.clone()))).map_err(|e| format!("{e:?}"))
             }
 
             /// runs the transactions; returns the committed contents after each transaction
@@ -279,6 +293,131 @@ fn gen_txns(rng: &mut Rng, thorough: bool) -> Vec<Vec<Op>> {
             ops
         })
         .collect()
+}
+
+/// a program in which the file grows by several MiB, the data is deleted again and later commits
+/// reclaim and give back the space: ordinary commits that shrink the file
+fn shrink_program(variant: u64) -> Vec<Vec<Op>> {
+    let n = 30 + variant * 10;
+    vec![
+        (0..20).map(|k| Op::PutS(format!("k{k:04}"), 100)).collect(),
+        (0..n).map(|k| Op::PutA(1000 + k, 150_000 + (k as usize % 3) * 20_000)).collect(),
+        (0..n).map(|k| Op::DelA(1000 + k)).collect(),
+        vec![Op::PutS("after1".into(), 8)],
+        vec![Op::PutS("after2".into(), 8)],
+        vec![Op::PutS("after3".into(), 8)],
+    ]
+}
+
+/// Crash images of a history written by one version, opened by the other: every image built from
+/// the recorded storage stream at the cut points around each sync and each change of the file
+/// length (pending writes lost / applied / torn as in the C01 crash model) must open, show the
+/// contents of the commit before or the commit in flight, and survive check_integrity().
+fn crash_images_cross_version(out: &mut Out, txns: &[Vec<Op>], new_writes: bool, rng: &mut Rng, thorough: bool) -> Result<(), String> {
+    use crate::backend::Ev;
+    let bytes = Arc::new(Mutex::new(vec![]));
+    let log: Arc<Mutex<Vec<Ev>>> = Arc::new(Mutex::new(vec![]));
+    // creation is not part of the stream (the properties quantify over histories after creation)
+    let mut points: Vec<Contents> = vec![Contents::default()];
+    let mut bounds: Vec<usize> = vec![];
+    let initial;
+    if new_writes {
+        let db = cur::open_recorded(&bytes, &log)?;
+        initial = bytes.lock().unwrap().clone();
+        log.lock().unwrap().clear();
+        for t in txns {
+            let p = cur::run(&db, std::slice::from_ref(t), points.last().unwrap())?.pop().unwrap();
+            points.push(p);
+            bounds.push(log.lock().unwrap().len());
+        }
+        let snapshot: Vec<Ev> = std::mem::take(&mut *log.lock().unwrap());
+        drop(db);
+        *log.lock().unwrap() = snapshot;
+    } else {
+        let db = old::open_recorded(&bytes, &log)?;
+        initial = bytes.lock().unwrap().clone();
+        log.lock().unwrap().clear();
+        for t in txns {
+            let p = old::run(&db, std::slice::from_ref(t), points.last().unwrap())?.pop().unwrap();
+            points.push(p);
+            bounds.push(log.lock().unwrap().len());
+        }
+        let snapshot: Vec<Ev> = std::mem::take(&mut *log.lock().unwrap());
+        drop(db);
+        *log.lock().unwrap() = snapshot;
+    }
+    let log = log.lock().unwrap().clone();
+    let total = log.len();
+    let mut durable = initial.clone();
+    let mut last_sync = 0usize;
+    let reader = if new_writes { "redb 3.0.0" } else { "this code" };
+    let mut images = 0u64;
+    for k in 0..=total {
+        if k > 0 {
+            if let Ev::Sync = &log[k - 1] {
+                for e in &log[last_sync..k] {
+                    crate::crash::apply_all(&mut durable, e);
+                }
+                last_sync = k;
+            }
+        }
+        let near = |i: usize| i < total && matches!(log[i], Ev::Sync | Ev::SetLen(_));
+        let take = near(k) || (k > 0 && near(k - 1)) || (k > 1 && matches!(log[k - 2], Ev::SetLen(_)));
+        if !take {
+            continue;
+        }
+        // the transaction in flight at this cut
+        let i = bounds.iter().position(|b| k <= *b).unwrap_or(bounds.len() - 1);
+        let allowed = [&points[i], &points[i + 1]];
+        let pending: Vec<&Ev> = log[last_sync..k].iter().filter(|e| matches!(e, Ev::Write { .. } | Ev::SetLen(_))).collect();
+        let mut variants = crate::crash::choices(&pending, rng, false);
+        if !thorough {
+            variants.retain(|(name, _)| matches!(name.as_str(), "clean" | "none" | "all" | "header-only" | "all-but-header" | "set_len-lost" | "set_len-only"));
+        }
+        for (name, ch) in variants {
+            let img = crate::crash::build_image(&durable, &pending, &ch);
+            if !new_writes {
+                // redb 3.0.0 is not crash-safe under this crash model in every window (e.g. its grow()
+                // writes the header with the new layout before the longer file is durable): an image
+                // that 3.0.0 itself cannot recover is not a "crash-recovered file" of that release
+                let own = Arc::new(Mutex::new(img.clone()));
+                let ok = catch_unwind(AssertUnwindSafe(|| -> Result<Contents, String> {
+                    let db = old::open(&own)?;
+                    old::read(&db)
+                }));
+                if !matches!(&ok, Ok(Ok(got)) if allowed.iter().any(|a| *a == got)) {
+                    out.count("images_the_old_release_cannot_recover_itself");
+                    continue;
+                }
+            }
+            let b2 = Arc::new(Mutex::new(img));
+            let res = catch_unwind(AssertUnwindSafe(|| -> Result<Contents, String> {
+                if new_writes {
+                    let mut db = old::open(&b2)?;
+                    let got = old::read(&db)?;
+                    old::check_integrity(&mut db)?;
+                    Ok(got)
+                } else {
+                    let mut db = cur::open(&b2)?;
+                    let got = cur::read(&db)?;
+                    cur::check_integrity(&mut db)?;
+                    Ok(got)
+                }
+            }));
+            images += 1;
+            out.count("cross_version_crash_images");
+            let what = match res {
+                Ok(Ok(got)) if allowed.iter().any(|a| **a == got) => continue,
+                Ok(Ok(got)) => format!("shows {} which is neither the commit before ({}) nor the commit in flight ({})", got.digest(), allowed[0].digest(), allowed[1].digest()),
+                Ok(Err(e)) => format!("fails: {e}"),
+                Err(p) => format!("panics: {}", p.downcast_ref::<String>().cloned().or_else(|| p.downcast_ref::<&str>().map(|s| s.to_string())).unwrap_or_default().lines().next().unwrap_or("")),
+            };
+            let shape: Vec<String> = pending.iter().map(|e| match e { Ev::Write { off, data } => format!("w{off}+{}", data.len()), Ev::SetLen(n) => format!("setlen{n}"), _ => String::new() }).collect();
+            return Err(format!("crash image (cut {k}/{total} in transaction {}, variant {name}; durable length {}, pending {}) of a file written by {}: {reader} {what}", i + 1, durable.len(), shape.join(","), if new_writes { "this code" } else { "redb 3.0.0" }));
+        }
+    }
+    out.add("evaluations", images);
+    Ok(())
 }
 
 pub fn run(args: &Args) {
@@ -439,6 +578,30 @@ pub fn run(args: &Args) {
             Err(p) => {
                 let msg = p.downcast_ref::<String>().cloned().or_else(|| p.downcast_ref::<&str>().map(|s| s.to_string())).unwrap_or_default();
                 out.oracle_fail(format!("compat-panic|{}", msg.lines().next().unwrap_or("")));
+                out.end_case(false);
+            }
+        }
+        out.count("programs");
+    }
+    // crash-recovered files across versions: shrinking programs (both directions) and, in the
+    // thorough tier, random programs as well
+    let mut progs: Vec<(Vec<Vec<Op>>, bool)> = vec![(shrink_program(args.seed % 3), true), (shrink_program((args.seed + 1) % 3), false)];
+    for i in 0..(if args.thorough { 12 } else { 2 }) {
+        let mut r = rng.fork();
+        progs.push((gen_txns(&mut r, args.thorough), i % 2 == 0));
+    }
+    for (txns, new_writes) in progs {
+        out.begin_case(&format!("compat crash-images writer={} txns={}", if new_writes { "this" } else { "3.0.0" }, txns.len()));
+        let mut r = rng.fork();
+        let res = catch_unwind(AssertUnwindSafe(|| crash_images_cross_version(&mut out, &txns, new_writes, &mut r, args.thorough)));
+        match res {
+            Ok(Ok(())) => out.end_case(true),
+            Ok(Err(e)) => {
+                out.oracle_fail(format!("compat-crash|{e}"));
+                out.end_case(false);
+            }
+            Err(_) => {
+                out.oracle_fail("compat-panic|panic while building crash images".into());
                 out.end_case(false);
             }
         }
